@@ -11,7 +11,7 @@ from ..harness import Prop, Result
 
 HOSTILE_SCALARS = [None, True, False, 0, 1, -1, 1.0, -0.0, 0.5, 1.5, 2 ** 53, 2 ** 53 + 1, 2 ** 63, 10 ** 400, -10 ** 400,
                    1e308, -1e308, 5e-324, 1.7976931348623157e308, "", "a", "ab", "\U0001F600", "a{99999999999}",
-                   "(?a)(?u)", "20200101", "2020-W01-1", "1.2.3.4", "::1%eth0", "x" * 300, "\u0000", "a\nb"]
+                   "(?a)(?u)", "20200101", "2020-W01-1", "1.2.3.4", "::1%eth0", "x" * 300, "\u0000", "a\nb", "1" * 40 + "e", "2147483648:00:00"]
 hostile_scalar = st.one_of(st.sampled_from(HOSTILE_SCALARS), V.scalars_wide)
 hostile = st.recursive(hostile_scalar, lambda c: st.one_of(st.lists(c, max_size=4),
                                                           st.dictionaries(V.keys, c, max_size=4)), max_leaves=10)
@@ -206,6 +206,7 @@ def judge(res, d, s, x, fcs=("none", "default", "draft")):
 
 class C03(Prop):
     ID = "C03"
+    WATCHDOG_IS_VIOLATION = True
     QUICK = 500
     THOROUGH = 12000
     RULE = ("case = (draft, schema from the liberal grammar (odd / degenerate / arbitrary keyword values) or the "
